@@ -60,6 +60,30 @@ def payloads(cls, tier, rnd, accepted_only=False):
                     yield DPTArray(tuple(a if i == pos else rnd.randrange(256) for i in range(n)))
             for _ in range(300 if quick else 6000):
                 yield DPTArray(tuple(rnd.choice(EDGE) if rnd.random() < 0.3 else rnd.randrange(256) for _ in range(n)))
+            # structured types (dates, times, colours, tariffs ...): fields interact - every three positions take boundary values together,
+            # on a payload the type accepts (so that the other fields are in range) and on zeros
+            from xknx.dpt import DPTComplex  # noqa: PLC0415
+
+            if issubclass(cls, DPTComplex) and 3 <= n <= 8:
+                import itertools  # noqa: PLC0415
+
+                tri = (0, 2, 24, 29, 31, 0x10, 0x80, 0xFF) if quick else (0, 1, 2, 12, 23, 24, 28, 29, 30, 31, 59, 60, 0x08, 0x10, 0x18, 0x80, 0xFF)
+                bases = [(0,) * n]
+                for _ in range(4000):
+                    cand = tuple(rnd.choice((1, 2, 3, 5, 10, 12, 20, 23, 28, 40, 59, 100, 124)) for _ in range(n))
+                    try:
+                        cls.from_knx(DPTArray(cand))
+                        bases.append(cand)
+                        break
+                    except Exception:  # noqa: BLE001
+                        continue
+                for base in bases:
+                    for pos in itertools.combinations(range(n), 3):
+                        for vals in itertools.product(tri, repeat=3):
+                            b = list(base)
+                            for i_, v_ in zip(pos, vals):
+                                b[i_] = v_
+                            yield DPTArray(tuple(b))
         else:
             for _ in range(3 if quick else 20):
                 yield DPTArray(tuple(rnd.randrange(256) for _ in range(n)))
